@@ -252,11 +252,11 @@ def scan (s : MState) (now : Int) (cursor : Int) (pat : Bytes) (count : Int) (ty
     | [] => (s, iter, acc.reverse)
     | (key, m) :: rest =>
       let iter := iter + 1
-      let cursor := cursor - 1
+      let cursor := wrap64 (cursor - 1)          -- `cursor--` wraps at int64 min
       if cursor > 0 then go rest s cursor iter count acc else
       if iter > keyLen then (s, 0, acc.reverse) else
       if count = 0 then (s, iter, acc.reverse) else
-      let count := count - 1
+      let count := wrap64 (count - 1)
       -- rLockKey: count++
       let s := modMeta s key fun m => { m with count := m.count + 1 }
       if Glob.matched pat key && !m.expired now then
@@ -479,9 +479,11 @@ def setRange (s : MState) (now : Int) (key : Bytes) (offset : Int) (value : Byte
   match asStr s key with
   | none => (s, .panic)
   | some v =>
-    let (v', n) := DsStr.setRange v offset value
-    let s := setVal s key (strVal v')
-    (emit (signal s key) (opSet key (DsStr.bytes v') false), .int n)
+    match DsStr.setRange v offset value with
+    | none => (s, .panic)
+    | some (v', n) =>
+      let s := setVal s key (strVal v')
+      (emit (signal s key) (opSet key (DsStr.bytes v') false), .int n)
 
 def mset (s : MState) (now : Int) (pairs : List Bytes) : R :=
   if pairs.length % 2 ≠ 0 then (s, .unit) else
